@@ -82,6 +82,11 @@ class Ctx:
         self.functions.add(defn)
         return b
 
+    def closure_provider(self, facts, defn):
+        if facts is not self.facts or defn not in self.facts.bodies:
+            return mir.get_body(facts, defn)
+        return self.ibody(defn)
+
     def ibody(self, defn, **kw):
         """the body with std combinator models, closure calls and un-named private helpers inlined (sa/inline.py):
         the idiom-independent view of the function"""
@@ -278,6 +283,7 @@ def run_pack(prop, tier="quick", replay=None, seed=0):
         print("CHECKER-ERROR: %s" % e, file=sys.stderr)
         return 2
     ctx = Ctx(prop, facts, tier, facts_all)
+    mir.CLOSURE_BODY_PROVIDER = ctx.closure_provider
     pack = importlib.import_module("rules." + prop)
     ctx.explanation = pack.EXPLANATION
     ctx.not_decided = getattr(pack, "NOT_DECIDED", [])
